@@ -614,11 +614,12 @@ class PyObj(HeapObj):
         return PyObj(self.cls, dict(self.fields))
 
 
-def forall_pat(vs, body, pattern):
-    """ForAll with an explicit trigger when z3 accepts it (a beta-reduced lambda may not be one)."""
+def forall_pat(vs, body, *patterns):
+    """ForAll with explicit (alternative) triggers when z3 accepts them (a beta-reduced lambda may not be one)."""
+    ok = [p for p in patterns if z3.is_app(p) and p.decl().kind() in (z3.Z3_OP_SELECT, z3.Z3_OP_UNINTERPRETED)]
     try:
-        if z3.is_app(pattern) and pattern.decl().kind() in (z3.Z3_OP_SELECT, z3.Z3_OP_UNINTERPRETED):
-            return z3.ForAll(vs, body, patterns=[pattern])
+        if ok:
+            return z3.ForAll(vs, body, patterns=ok)
     except z3.Z3Exception:
         pass
     return z3.ForAll(vs, body)
